@@ -394,7 +394,7 @@ def decide(p, q, quats=(), maxdeg=None):
     old_deadline = CFG.deadline
     if maxdeg:
         CFG.maxdeg = maxdeg
-    t0 = time.time()
+    t0 = time.process_time()
     if old_deadline is None:
         # after a decision has run out of time, later ones in this run get a short bound: one unforeseen program
         # must not cost (number of cells) x DECISION_SECONDS
@@ -411,7 +411,7 @@ def decide(p, q, quats=(), maxdeg=None):
         CFG.deadline = old_deadline
         if old_deadline is None:
             STATS["decisions"] += 1
-            STATS["slowest_s"] = max(STATS["slowest_s"], time.time() - t0)
+            STATS["slowest_s"] = max(STATS["slowest_s"], time.process_time() - t0)
 
 
 def _unify_half_angles(a, b):
